@@ -200,6 +200,81 @@ macro_rules! transcript_buf {
     }};
 }
 
+/// component / path iterators driven through `nth`, `nth_back`, `last`, `count`, `skip`, `size_hint`,
+/// and queried when partly consumed
+macro_rules! partial_iter_lines {
+    ($t:ident, $p:expr) => {{
+        let p = $p;
+        let mut v: Vec<String> = Vec::new();
+        let mut it = p.components();
+        let a = it.nth(0).map(|c| hex(&c.as_ref_bytes()));
+        v.push(format!("nth0={:?} rest={}", a, it.clone().map(|c| hex(&c.as_ref_bytes())).collect::<Vec<_>>().join(",")));
+        let a = it.nth(1).map(|c| hex(&c.as_ref_bytes()));
+        v.push(format!("nth1={:?} rest={}", a, it.clone().map(|c| hex(&c.as_ref_bytes())).collect::<Vec<_>>().join(",")));
+        let a = it.nth_back(0).map(|c| hex(&c.as_ref_bytes()));
+        v.push(format!("nthback0={:?} rest={}", a, it.clone().map(|c| hex(&c.as_ref_bytes())).collect::<Vec<_>>().join(",")));
+        let mut it = p.components();
+        let a = it.nth_back(1).map(|c| hex(&c.as_ref_bytes()));
+        v.push(format!("nthback1={:?} rest={}", a, it.clone().map(|c| hex(&c.as_ref_bytes())).collect::<Vec<_>>().join(",")));
+        v.push(format!("last={:?} count={} skip1={:?}", p.components().last().map(|c| hex(&c.as_ref_bytes())), p.components().count(), p.components().skip(1).next().map(|c| hex(&c.as_ref_bytes()))));
+        let mut it = p.iter();
+        let a = it.nth(1).map(|c| hex(&c.tob()));
+        let b = it.nth_back(0).map(|c| hex(&c.tob()));
+        v.push(format!("iter nth1={:?} nthback0={:?} rest={}", a, b, it.map(|c| hex(&c.tob())).collect::<Vec<_>>().join(",")));
+        $t.push(format!("partial-iters {}", v.join(" ; ")));
+    }};
+}
+
+/// Windows prefix / root queries on partly consumed component iterators (after `nth`, `next`, `next_back`)
+fn wq_partial_bytes(s: &[u8]) -> String {
+    let p = WindowsPath::new(s);
+    let mut v = Vec::new();
+    macro_rules! q {
+        ($name:expr, $c:expr) => {{
+            let c = $c;
+            v.push(format!("{}:{}{}{}{}{}:{}", $name, c.has_prefix() as u8, c.has_any_verbatim_prefix() as u8, c.has_physical_root() as u8, c.has_implicit_root() as u8, c.has_root() as u8, c.prefix().map(|x| hex(x.as_bytes())).unwrap_or_default()));
+        }};
+    }
+    let mut c = p.components();
+    c.nth(0);
+    q!("nth0", c);
+    let mut c = p.components();
+    c.next();
+    q!("next", c);
+    let mut c = p.components();
+    c.next_back();
+    q!("next_back", c);
+    let mut c = p.components();
+    c.nth_back(0);
+    c.next();
+    q!("nthback0-next", c);
+    format!("wq-partial {}", v.join(" "))
+}
+fn wq_partial_utf8(s: &str) -> String {
+    let p = Utf8WindowsPath::new(s);
+    let mut v = Vec::new();
+    macro_rules! q {
+        ($name:expr, $c:expr) => {{
+            let c = $c;
+            v.push(format!("{}:{}{}{}{}{}:{}", $name, c.has_prefix() as u8, c.has_any_verbatim_prefix() as u8, c.has_physical_root() as u8, c.has_implicit_root() as u8, c.has_root() as u8, c.prefix().map(|x| hex(&x.as_str().tob())).unwrap_or_default()));
+        }};
+    }
+    let mut c = p.components();
+    c.nth(0);
+    q!("nth0", c);
+    let mut c = p.components();
+    c.next();
+    q!("next", c);
+    let mut c = p.components();
+    c.next_back();
+    q!("next_back", c);
+    let mut c = p.components();
+    c.nth_back(0);
+    c.next();
+    q!("nthback0-next", c);
+    format!("wq-partial {}", v.join(" "))
+}
+
 /// methods only the concrete families have (lines start with `x.`; stripped before comparing with
 /// the typed families): the generic conversions, the platform conversions, the capacity operations
 macro_rules! extras_bytes {
@@ -346,10 +421,12 @@ fn t_bytes(win: bool, s: &[u8], a: &[u8]) -> Vec<String> {
             t.push(format!("iter-rev {}", p.iter().rev().map(|c| hex(c)).collect::<Vec<_>>().join(",")));
             t.push(format!("iter-alt {}", alt(p.iter()).into_iter().map(|c| hex(c)).collect::<Vec<_>>().join(",")));
             t.push(format!("components-alt {}", alt(p.components()).into_iter().map(|c| hex(&c.as_ref_bytes())).collect::<Vec<_>>().join(",")));
+            partial_iter_lines!(t, p);
             t.push(format!("to-unix {} {:?}", hex(p.with_unix_encoding().as_bytes()), p.with_unix_encoding_checked().map(|x| hex(x.as_bytes()))));
             t.push(format!("to-windows {} {:?}", hex(p.with_windows_encoding().as_bytes()), p.with_windows_encoding_checked().map(|x| hex(x.as_bytes()))));
             let c = p.components();
             t.push(format!("wq {} {} {} {} {}", c.has_prefix(), c.has_any_verbatim_prefix(), c.has_physical_root(), c.has_implicit_root(), c.prefix().map(|x| hex(x.as_bytes())).unwrap_or_default()));
+            t.push(wq_partial_bytes(&s));
             extras_bytes!(t, p, WindowsPathBuf::from(s.as_slice()));
         } else {
             transcript_path!(t, UnixPath::new(&s), a.as_slice(), win);
@@ -361,6 +438,7 @@ fn t_bytes(win: bool, s: &[u8], a: &[u8]) -> Vec<String> {
             t.push(format!("iter-rev {}", p.iter().rev().map(|c| hex(c)).collect::<Vec<_>>().join(",")));
             t.push(format!("iter-alt {}", alt(p.iter()).into_iter().map(|c| hex(c)).collect::<Vec<_>>().join(",")));
             t.push(format!("components-alt {}", alt(p.components()).into_iter().map(|c| hex(&c.as_ref_bytes())).collect::<Vec<_>>().join(",")));
+            partial_iter_lines!(t, p);
             t.push(format!("to-unix {} {:?}", hex(p.with_unix_encoding().as_bytes()), p.with_unix_encoding_checked().map(|x| hex(x.as_bytes()))));
             t.push(format!("to-windows {} {:?}", hex(p.with_windows_encoding().as_bytes()), p.with_windows_encoding_checked().map(|x| hex(x.as_bytes()))));
             extras_bytes!(t, p, UnixPathBuf::from(s.as_slice()));
@@ -383,10 +461,12 @@ fn t_utf8(win: bool, s: &str, a: &str) -> Vec<String> {
             t.push(format!("iter-rev {}", p.iter().rev().map(|c| hex(&c.tob())).collect::<Vec<_>>().join(",")));
             t.push(format!("iter-alt {}", alt(p.iter()).into_iter().map(|c| hex(&c.tob())).collect::<Vec<_>>().join(",")));
             t.push(format!("components-alt {}", alt(p.components()).into_iter().map(|c| hex(&c.as_ref_bytes())).collect::<Vec<_>>().join(",")));
+            partial_iter_lines!(t, p);
             t.push(format!("to-unix {} {:?}", hex(&p.with_unix_encoding().tob()), p.with_unix_encoding_checked().map(|x| hex(&x.tob()))));
             t.push(format!("to-windows {} {:?}", hex(&p.with_windows_encoding().tob()), p.with_windows_encoding_checked().map(|x| hex(&x.tob()))));
             let c = p.components();
             t.push(format!("wq {} {} {} {} {}", c.has_prefix(), c.has_any_verbatim_prefix(), c.has_physical_root(), c.has_implicit_root(), c.prefix().map(|x| hex(&x.as_str().tob())).unwrap_or_default()));
+            t.push(wq_partial_utf8(&s));
             extras_utf8!(t, p, Utf8WindowsPathBuf::from(s.as_str()));
         } else {
             transcript_path!(t, Utf8UnixPath::new(&s), a.as_str(), win);
@@ -398,6 +478,7 @@ fn t_utf8(win: bool, s: &str, a: &str) -> Vec<String> {
             t.push(format!("iter-rev {}", p.iter().rev().map(|c| hex(&c.tob())).collect::<Vec<_>>().join(",")));
             t.push(format!("iter-alt {}", alt(p.iter()).into_iter().map(|c| hex(&c.tob())).collect::<Vec<_>>().join(",")));
             t.push(format!("components-alt {}", alt(p.components()).into_iter().map(|c| hex(&c.as_ref_bytes())).collect::<Vec<_>>().join(",")));
+            partial_iter_lines!(t, p);
             t.push(format!("to-unix {} {:?}", hex(&p.with_unix_encoding().tob()), p.with_unix_encoding_checked().map(|x| hex(&x.tob()))));
             t.push(format!("to-windows {} {:?}", hex(&p.with_windows_encoding().tob()), p.with_windows_encoding_checked().map(|x| hex(&x.tob()))));
             extras_utf8!(t, p, Utf8UnixPathBuf::from(s.as_str()));
@@ -573,6 +654,7 @@ fn t_typed(win: bool, s: &[u8], a: &[u8]) -> Vec<String> {
             t.push(format!("iter-rev {}", p.iter().rev().map(|c| hex(c)).collect::<Vec<_>>().join(",")));
             t.push(format!("iter-alt {}", alt(p.iter()).into_iter().map(|c| hex(c)).collect::<Vec<_>>().join(",")));
             t.push(format!("components-alt {}", alt(p.components()).into_iter().map(|c| hex(&c.as_ref_bytes())).collect::<Vec<_>>().join(",")));
+            partial_iter_lines!(t, p);
         // explicit conversions are the only operations allowed to change the variant
         let (tu, tuc) = (p.with_unix_encoding(), p.with_unix_encoding_checked());
         t.push(format!("to-unix {}{} {:?}", if tu.is_unix() { "" } else { "!VARIANT" }, hex(tu.as_bytes()), tuc.map(|x| format!("{}{}", if x.is_unix() { "" } else { "!VARIANT" }, hex(x.as_bytes())))));
@@ -582,6 +664,7 @@ fn t_typed(win: bool, s: &[u8], a: &[u8]) -> Vec<String> {
             let wp = WindowsPath::new(&s);
             let c = wp.components();
             t.push(format!("wq {} {} {} {} {}", c.has_prefix(), c.has_any_verbatim_prefix(), c.has_physical_root(), c.has_implicit_root(), c.prefix().map(|x| hex(x.as_bytes())).unwrap_or_default()));
+            t.push(wq_partial_bytes(s.as_ref()));
         }
         t
     })
@@ -624,6 +707,7 @@ fn t_typed8(win: bool, s: &str, a: &str) -> Vec<String> {
             t.push(format!("iter-rev {}", p.iter().rev().map(|c| hex(&c.tob())).collect::<Vec<_>>().join(",")));
             t.push(format!("iter-alt {}", alt(p.iter()).into_iter().map(|c| hex(&c.tob())).collect::<Vec<_>>().join(",")));
             t.push(format!("components-alt {}", alt(p.components()).into_iter().map(|c| hex(&c.as_ref_bytes())).collect::<Vec<_>>().join(",")));
+            partial_iter_lines!(t, p);
         let (tu, tuc) = (p.with_unix_encoding(), p.with_unix_encoding_checked());
         t.push(format!("to-unix {}{} {:?}", if tu.is_unix() { "" } else { "!VARIANT" }, hex(&tu.tob()), tuc.map(|x| format!("{}{}", if x.is_unix() { "" } else { "!VARIANT" }, hex(&x.tob())))));
         let (tw, twc) = (p.with_windows_encoding(), p.with_windows_encoding_checked());
@@ -632,6 +716,7 @@ fn t_typed8(win: bool, s: &str, a: &str) -> Vec<String> {
             let wp = WindowsPath::new(s.as_bytes());
             let c = wp.components();
             t.push(format!("wq {} {} {} {} {}", c.has_prefix(), c.has_any_verbatim_prefix(), c.has_physical_root(), c.has_implicit_root(), c.prefix().map(|x| hex(x.as_bytes())).unwrap_or_default()));
+            t.push(wq_partial_bytes(s.as_bytes()));
         }
         t
     })
@@ -650,6 +735,7 @@ fn t_platform(s: &[u8], a: &[u8]) -> Vec<String> {
             t.push(format!("iter-rev {}", p.iter().rev().map(|c| hex(c)).collect::<Vec<_>>().join(",")));
             t.push(format!("iter-alt {}", alt(p.iter()).into_iter().map(|c| hex(c)).collect::<Vec<_>>().join(",")));
             t.push(format!("components-alt {}", alt(p.components()).into_iter().map(|c| hex(&c.as_ref_bytes())).collect::<Vec<_>>().join(",")));
+            partial_iter_lines!(t, p);
         t.push(format!("to-unix {} {:?}", hex(p.with_unix_encoding().as_bytes()), p.with_unix_encoding_checked().map(|x| hex(x.as_bytes()))));
         t.push(format!("to-windows {} {:?}", hex(p.with_windows_encoding().as_bytes()), p.with_windows_encoding_checked().map(|x| hex(x.as_bytes()))));
         t
@@ -669,6 +755,7 @@ fn t_platform8(s: &str, a: &str) -> Vec<String> {
         t.push(format!("iter-rev {}", p.iter().rev().map(|c| hex(&c.tob())).collect::<Vec<_>>().join(",")));
         t.push(format!("iter-alt {}", alt(p.iter()).into_iter().map(|c| hex(&c.tob())).collect::<Vec<_>>().join(",")));
         t.push(format!("components-alt {}", alt(p.components()).into_iter().map(|c| hex(&c.as_ref_bytes())).collect::<Vec<_>>().join(",")));
+        partial_iter_lines!(t, p);
         t.push(format!("to-unix {} {:?}", hex(&p.with_unix_encoding().tob()), p.with_unix_encoding_checked().map(|x| hex(&x.tob()))));
         t.push(format!("to-windows {} {:?}", hex(&p.with_windows_encoding().tob()), p.with_windows_encoding_checked().map(|x| hex(&x.tob()))));
         t
